@@ -160,6 +160,7 @@ func C02(p *engine.Prog, r *engine.Report) {
 	offlineFlagsPeriodRule(p, r, "C02-R7")
 	offlineFlagsAtomsRule(p, r, "C02-R7")
 	timestampBoundaryRule(p, r, "C02-R7")
+	gasLimitTestsAgreeRule(p, r, "C02-R7")
 	// ---------------- R8: what the builder applies is what it includes
 	if ft != nil {
 		var ap *ssa.Call
